@@ -174,6 +174,32 @@ def run(ck):
     ok = bool(mk) and any(strip_tmpl((a.get("f") or "")) == H + "Handler::maxRequestSize_" for e in mk for a in e.get("args", []))
     ck.ob("C14-R3", "Handler::onConnection/parser-limit", ok, oc.loc, oc, "make_shared<RequestParser>(maxRequestSize_)")
 
+    # ---------------- R8: the clock of a connection starts with the connection ----------------
+    ck.rule("C14-R8", "C must-pass-through",
+            "the read time-outs of a connection are measured from its parser's reference instant, which only the parser's constructor and "
+            "reset() set: on every path of Http::Handler::onConnection the parser that is attached to the new peer has just been "
+            "constructed or reset -- a parser kept from an earlier connection carries that connection's instant and the new one is "
+            "answered 408 before its own time-out has run (or long after)", 1)
+    puts = [e for e in oc.events("call") if (e.get("callee") or "") == "Pistache::Tcp::Peer::putData"]
+    ck.require(puts, "Handler::onConnection does not attach a parser (Peer::putData)")
+    fresh8 = lambda e: e["k"] == "call" and (("make_shared" in (e.get("callee") or "") and "Parser" in (e.get("t") or "") + (e.get("callee") or "")) or
+                                              strip_tmpl(e.get("callee") or "") in (H + "Private::ParserBase::reset", H + "Private::ParserImpl::reset"))
+    stale8 = []
+
+    def step8(st, e):
+        if fresh8(e):
+            return "fresh"
+        if e in puts:
+            if st != "fresh":
+                stale8.append(e)
+            return None
+        return st
+    cfg.run_automaton(oc, "none", step8)
+    ck.ob("C14-R8", "Handler::onConnection/parser-clock-starts-here", not stale8, (stale8[0].loc if stale8 else puts[0].loc), oc,
+          "the attached parser is constructed or reset on every path" if not stale8 else
+          "a path reaches putData at line %s with a parser that was neither constructed nor reset for this connection: its time-outs run from an "
+          "instant that belongs to an earlier connection" % stale8[0].get("l"))
+
     # ---------------- R4 ----------------
     ctor = [f2 for f2 in prog.funcs.values() if f2.cls == H + "Private::ParserImpl<Pistache::Http::Request>" and f2.d.get("ctor")]
     ck.require(ctor, "ParserImpl<Request> constructor not found")
